@@ -616,7 +616,11 @@ def _oracle_repeat(a, io):
     if dur < desc['total'] or _quantized(desc):
         return None                         # outside the quantifier (duration >= total_time, unquantized)
     n = -((-d) // dur)
-    if n <= 0 or (n - 1) * dur + desc['total'] == 0:      # nothing to cut: extract_subsequence rejects total_time 0
+    if n <= 0 or (n - 1) * dur + desc['total'] == 0:
+        # nothing to cut: the code happens to raise ValueError (extract_subsequence rejects total_time 0); the
+        # property only requires that nothing is invented, so an empty result is accepted as well
+        if io[0] == 'OK' and not io[1][0] and io[1][I_TOTAL] == 0:
+            return None
         return _expect_exc(io, 'ValueError', 'repeat', 'empty-result')
     if io[0] != 'OK':
         return {'kind': 'repeat-valid-input-rejected', 'got': io[1]}
@@ -639,9 +643,8 @@ def _oracle_repeat(a, io):
         allev = sorted([[r[0] + k * dur] + list(r[1:]) for k in range(n) for r in w[i]], key=lambda r: r[0])
         outsorted = sorted(wout[i], key=lambda r: r[0])
         for t in sorted(set([r[0] for r in allev if r[0] < d] + [0])):
-            cands = set(repr(r[1:]) for r in allev if r[0] == t)
-            if len(cands) > 1:
-                continue                    # coinciding different values: order-dependent, not fixed by the property
+            if _ambiguous(allev):
+                break                       # coinciding different values: order-dependent, not fixed by the property
             if _in_force(allev, t) != _in_force(outsorted, t):
                 return {'kind': 'repeat-%s-in-force-changed' % LISTS[i], 'time': t}
         if any(r[0] >= d or r[0] < 0 for r in outsorted):
